@@ -69,7 +69,7 @@ func registerRound2() {
 	// ---------------------------------------------------------------- C10
 	// the unbind handler panics (recovered): the connection still ends, the pipelined request is not served
 	regSpec(&Spec{
-		Name: "unbind-handler-panics-then-request", Props: []string{"C10", "C07", "C08"},
+		Name: "unbind-handler-panics-then-request", Props: []string{"C10", "C07", "C08", "C12"},
 		Conns: []ConnSpec{{Ops: []string{"bind", "unbind", "search"}, H: map[int]*HSpec{2: {Panic: "before"}}, Read: "all"}},
 		Quick: 2, Thor: 3,
 	})
